@@ -13,7 +13,10 @@ import (
 
 func c09Scenarios(tier string) []*Scenario {
 	var out []*Scenario
-	kinds := []string{"counter", "gauge", "timer", "histogram", "tagged", "subscope", "mixed", "tagged+victim", "tagged+stale", "two-long-identities", "gauge+lookup"}
+	kinds := []string{"counter", "gauge", "timer", "histogram", "tagged", "subscope", "mixed", "tagged+victim", "tagged+stale", "two-long-identities", "gauge+lookup",
+		// first uses of DIFFERENT names of one scope at the same time: of two kinds (whatever the kinds share - a list of
+		// what to report, say - must take both), and two of the same kind (a table that is copied on write must not lose one)
+		"counter+gauge", "two-timers", "two-histograms"}
 	type variant struct {
 		kind    string
 		cached  bool
@@ -28,6 +31,8 @@ func c09Scenarios(tier string) []*Scenario {
 	}
 	// several registry shards: the scopes asked for live in shards nobody has used yet
 	vs = append(vs, variant{kind: "tagged", cached: false, shards: 8, threads: 2}, variant{kind: "subscope", cached: true, shards: 8, threads: 2})
+	// (the kinds above alternate between the plain and the cached path by position; these two on the other path too)
+	vs = append(vs, variant{kind: "counter+gauge", cached: true, shards: 1, threads: 2}, variant{kind: "two-timers", cached: true, shards: 1, threads: 2})
 	if tier == "thorough" {
 		for i, k := range kinds {
 			vs = append(vs, variant{kind: k, cached: i%2 == 1, shards: 2, threads: 2, onSub: true})
@@ -79,6 +84,20 @@ func c09Scenarios(tier string) []*Scenario {
 							m.Update(7)
 						}
 						objs[i] = m
+					case "counter+gauge":
+						if i == 0 {
+							s.Counter("x").Inc(val)
+						} else {
+							s.Gauge("g").Update(7)
+						}
+					case "two-timers":
+						m := s.Timer(fmt.Sprint("t", i))
+						m.Record(time.Duration(val))
+						objs[i] = m
+					case "two-histograms":
+						m := s.Histogram(fmt.Sprint("h", i), tally.ValueBuckets{1, 4})
+						m.RecordValue(2.5)
+						objs[i] = m
 					case "timer":
 						m := s.Timer("x")
 						m.Record(time.Duration(val))
@@ -121,7 +140,26 @@ func c09Scenarios(tier string) []*Scenario {
 			}
 			p.Join()
 			tally.VerifReportOnce(root)
-			if v.kind == "two-long-identities" {
+			if v.kind == "two-timers" || v.kind == "two-histograms" {
+				// asking again returns the object handed out at first use (a metric that dropped out of its scope's table
+				// would be created a second time, and what was recorded through the first handle would be gone)
+				for i := 0; i < v.threads; i++ {
+					var again interface{}
+					if v.kind == "two-timers" {
+						again = s.Timer(fmt.Sprint("t", i))
+					} else {
+						again = s.Histogram(fmt.Sprint("h", i), tally.ValueBuckets{1, 4})
+						again.(tally.Histogram).RecordValue(0.5)
+					}
+					if again != objs[i] {
+						x.failf("different-objects", "the %s first used by goroutine %d next to another goroutine's first use of another name is not the one the scope hands out afterwards", v.kind[4:len(v.kind)-1], i)
+					}
+				}
+				if v.kind == "two-histograms" {
+					tally.VerifReportOnce(root)
+				}
+			} else if v.kind == "counter+gauge" {
+			} else if v.kind == "two-long-identities" {
 				if objs[0] == objs[1] {
 					x.failf("distinct-identities-share-scope", "two different long tag values were given one scope")
 				}
@@ -196,6 +234,38 @@ func c09Scenarios(tier string) []*Scenario {
 				}
 				if n < 1 || n > v.threads {
 					return "gauge-lost", fmt.Sprintf("%d gauge deliveries for %d updates", n, v.threads), "viol"
+				}
+			case "counter+gauge":
+				if cl, d := counterOracle(log, map[string]int64{pre + "x{}": 1}, -1, true); cl != "" {
+					return cl, d, "viol"
+				}
+				gl := uint64(0)
+				for _, e := range log {
+					if e.Kind == "gauge" && e.ID() == pre+"g{}" {
+						gl = e.F
+					}
+				}
+				if math.Float64frombits(gl) != 7 {
+					return "gauge-update-lost", fmt.Sprintf("a gauge first used next to the first use of a counter of the same scope: last delivered value %v, updated to 7", math.Float64frombits(gl)), "viol"
+				}
+			case "two-timers":
+				n := 0
+				for _, e := range log {
+					if e.Kind == "timer" {
+						n++
+					}
+				}
+				if n != v.threads {
+					return "timer-lost", fmt.Sprintf("%d timer deliveries for %d records on %d timers", n, v.threads, v.threads), "viol"
+				}
+			case "two-histograms":
+				hs := histSums(log)
+				var tot int64
+				for _, n := range hs {
+					tot += n
+				}
+				if tot != int64(2*v.threads) {
+					return "histogram-samples-lost", fmt.Sprintf("bucket deliveries %v for %d samples on %d histograms", hs, 2*v.threads, v.threads), "viol"
 				}
 			case "gauge+lookup":
 				last, n := uint64(0), 0
